@@ -1455,9 +1455,6 @@ K_FIND_UTXOS = "K-C09-find-utxos-ignores-address-type"
 
 
 def classify(v):
-    if v.get("kind") == "prop" and v.get("name") == "find_utxos" and \
-            "also returns the outputs of the OTHER template with the same hash" in (v.get("detail", "") or ""):
-        return K_FIND_UTXOS
     return None
 
 
@@ -2303,12 +2300,13 @@ def audit_cases(ctx):
         ctx.label("audit/find-utxos")
         yield ("prop", "find_utxos", [outs, r.randrange(4), r.randrange(len(outs)), 0])
         yield ("prop", "find_utxos", [outs, r.randrange(4), r.randrange(len(outs)), r.randrange(1, 100)])
-    if _registered(K_FIND_UTXOS):
-        # (c) the SAME hash under both templates in one transaction: the P2PKH address must not match the P2SH output
-        h = ctx.rbytes(20)
+    # (c) the SAME hash under both templates in one transaction: the P2PKH address must not match the P2SH output
+    # (repaired in /repo by af42eed; regression replay F-C09-find-utxos-address-type)
+    for h in (ctx.rbytes(20), bytes(range(20)), bytes(20)):
         ctx.label("audit/find-utxos-same-hash-two-templates")
         yield ("prop", "find_utxos", [[[0, h, 5], [1, h, 7]], 0, 0, 0])
         yield ("prop", "find_utxos", [[[0, h, 5], [1, h, 7]], 1, 1, 0])
+        yield ("prop", "find_utxos", [[[1, h, 5], [0, h, 7], [0, h, 9]], 2, 1, 0])
     # ---- (c) a valid checksum over NO data at all (six symbols after the separator: the first checksum symbol stands
     #      where the version symbol is read), under the constant that this symbol selects
     for hrp in ("bc", "tb", "bcrt"):
